@@ -221,6 +221,20 @@ def compare(sc, m, res):
 
 def execute(sc):
     m = FW.materialise(sc)
+    sweep = sc['knobs'].get('noise_sweep_before')
+    if sweep:
+        # not judged: the same data with every noise density multiplied
+        import copy
+        pre = copy.deepcopy(sc)
+        for w in ('gyro_model', 'accel_model'):
+            p_ = pre['knobs'][w]
+            if p_:
+                for key in ('noise', 'bias_walk'):
+                    if p_.get(key) is not None:
+                        p_[key] = (np.asarray(p_[key], dtype=float) * sweep).tolist() \
+                            if isinstance(p_[key], list) else float(p_[key]) * sweep
+        pre['knobs'].pop('noise_sweep_before', None)
+        FW.run_filter(pre, FW.materialise(pre))
     out = FW.run_filter(sc, m)
     met = {}
     if out.error_class is not None:
@@ -263,6 +277,10 @@ def execute(sc):
         probes['three_or_more_blocks'] = 1
     if kn.get('rerun'):
         probes['second_run_same_objects'] = 1
+    if kn.get('noise_sweep_before'):
+        probes['earlier_call_with_other_noise_densities'] = 1
+    if kn.get('same_model_object'):
+        probes['one_model_object_for_gyro_and_accel'] = 1
     if any(s['lever'] is not None for s in sc['sensors']):
         probes['lever_arm'] = 1
     probes.update({k: v for k, v in FW.probes(sc, m, out).items()
